@@ -59,6 +59,10 @@ class Cell:
         return self.name or '?'
 
 
+NAN_NAME = '__NaN__'  # the symbol standing for a quiet NaN
+NAN_SEEN = [False]  # set once a NaN has been produced (comparisons look for it only then)
+
+
 class OutOfBounds(Exception):
     """an access outside the extent of an abstract memory block (a finding, not an engine failure)"""
 
@@ -294,6 +298,11 @@ class Thrown(Exception):
         return 'throw at %s: %s' % (self.unit.loc(self.node) if self.node else '?', self.what)
 
 
+class AssertionAbort(Thrown):
+    """a failed assert(): the process is aborted (no C++ exception is raised), and the test vanishes under NDEBUG"""
+
+
+
 INT_BITS = {'int': (32, True), 'unsigned int': (32, False), 'long': (64, True), 'unsigned long': (64, False),
             'long long': (64, True), 'unsigned long long': (64, False), 'short': (16, True),
             'unsigned short': (16, False), 'char': (8, True), 'signed char': (8, True), 'unsigned char': (8, False),
@@ -386,6 +395,22 @@ class Hooks:
     def tracked_record(self, rec):
         """records whose object lifetimes (destructor calls for locals and temporaries) are modelled"""
         return False
+
+    statics = None  # optional store of function-local statics (thread_local or not) shared by several runs
+
+    def static_local(self, it, d):
+        # function-local statics keep their value between calls when the checker asks for it by providing a store;
+        # otherwise every call sees a first call
+        if self.statics is not None and (d['id'], id(it.unit)) in self.statics:
+            return self.statics[(d['id'], id(it.unit))]
+        return NotImplemented
+
+    def static_store(self, it, d, cell):
+        if self.statics is not None and cell is not None:
+            self.statics.setdefault((d['id'], id(it.unit)), cell)
+
+    def on_terminate(self, it, fdecl, thrown):
+        raise Unsupported('exception "%s" reaches the boundary of the non-throwing function %s (std::terminate)' % (thrown.what, fdecl['name']))
 
     def on_ctor_abort(self, it, cell, fdecl):
         pass
@@ -496,9 +521,12 @@ class Interp:
             self.unwind(fr, result)
             self.merge_post_returns(fr)
             return result
-        except Thrown:
+        except Thrown as t:
             self.post_returns = [e for e in self.post_returns if e[0] is not fr]
             self.unwind(fr, None)
+            if fdecl.get('nothrow') and not isinstance(t, AssertionAbort):
+                # [except.spec]: the exception does not leave the function; std::terminate is called
+                self.hooks.on_terminate(self, fdecl, t)
             if fdecl.get('ctor') and this_cell is not None:
                 if getattr(fr, 'delegated', False) and self.hooks.tracked_record(fdecl.get('record') or ''):
                     # [except.ctor]: an exception leaving the body of a delegating constructor after the target
@@ -669,6 +697,10 @@ class Interp:
                 for f in r['fields']:
                     if f['name'] == fname:
                         return f['t'].endswith('&')
+        if '<' in rec or '::' in rec:
+            # a class type this table does not know under that spelling (an alias in a template argument, say):
+            # guessing "not a reference" would silently copy the operand
+            raise Unsupported('aggregate initialisation of %s: record not found' % rec)
         return False
 
     def construct_into(self, cell, e, as_base=False):
@@ -840,6 +872,16 @@ class Interp:
             y = y.value if isinstance(y, Cell) else y
             if isinstance(x, int) and isinstance(y, int):
                 return min(x, y) if bname == 'std::min' else max(x, y)
+            if (isinstance(x, Poly) or isinstance(y, Poly)) and isinstance(x, (Poly, int, float)) and isinstance(y, (Poly, int, float)) \
+                    and not getattr(self.hooks, 'opaque_minmax', False):
+                px, py = self.to_poly(x), self.to_poly(y)
+                if px.is_const() and py.is_const():
+                    vx, vy = px.const_value(), py.const_value()
+                    return px if ((vx < vy) == (bname == 'std::min')) or vx == vy else py
+                c = self.compare('<', px, py, node)
+                if isinstance(c, Cond):
+                    return ITE(c, px, py) if bname == 'std::min' else ITE(c, py, px)
+                return (px if c else py) if bname == 'std::min' else (py if c else px)
         if bname in ('std::move', 'std::forward') and len(args) == 1:
             return self.lval(args[0])
         if name == '__builtin_assume' or name == '__builtin_unreachable' or name == '__builtin_expect':
@@ -979,7 +1021,11 @@ class Interp:
                 raise Unsupported('member %s of non-object %r at %s' % (node['member'], o, self.loc(node)))
             fc = o.field(node['member'])
             if 'farr' in node and fc.value is UNDEF:
-                fc.value = Region('%s.%s' % (o.tag or o.rec, node['member']), node['farr'], None, 'member')
+                dims = node.get('fdims') or [node['farr']]
+                if len(dims) > 1:
+                    fc.value = ArrayView(Region('%s.%s' % (o.tag or o.rec, node['member']), _prod(dims), None, 'member'), 0, list(dims))
+                else:
+                    fc.value = Region('%s.%s' % (o.tag or o.rec, node['member']), node['farr'], None, 'member')
             if node.get('fref'):
                 v = fc.value
                 if not isinstance(v, Ref):
@@ -1464,16 +1510,49 @@ class Interp:
                 return self.hooks.opaque_compare(self, op, a, b, node)
             raise Unsupported('comparison of opaque values at %s' % self.loc(node))
         pa, pb = self.to_poly(a), self.to_poly(b)
+        if NAN_SEEN[0] and (NAN_NAME in pa.vars() or NAN_NAME in pb.vars()):
+            return 1 if op == '!=' else 0  # IEEE: every comparison with a NaN is false, except !=
         d = (pa - pb).clean()
         if d.is_const():
             v = d.const_value()
             r = {'<': v < 0, '>': v > 0, '<=': v <= 0, '>=': v >= 0, '==': v == 0, '!=': v != 0}[op]
             return 1 if r else 0
+        if self.assumptions:
+            r = self.implied(op, d)
+            if r is not None:
+                return r
         if hasattr(self.hooks, 'decide_cmp'):
             r = self.hooks.decide_cmp(self, op, pa, pb, node)
             if r is not NotImplemented:
                 return r
         return Cond('cmp', pa, pb, op)
+
+    _SIGNS = {'<': {-1}, '<=': {-1, 0}, '>': {1}, '>=': {0, 1}, '==': {0}, '!=': {-1, 1}}
+
+    def implied(self, op, d):
+        """is `d op 0` settled by the conditions this path has already passed?  (an `if(c) throw` seen earlier leaves !c in
+        force for the rest of the path: conditions are over input symbols, whose values do not change).  Only
+        comparisons of the same quantity (or its negative) are used."""
+        known = {-1, 0, 1}
+        hit = False
+        for a in self.assumptions:
+            if not (isinstance(a, Cond) and a.kind == 'cmp' and isinstance(a.a, Poly) and isinstance(a.b, Poly)):
+                continue
+            da = (a.a - a.b).clean()
+            if da.equals(d):
+                known &= self._SIGNS[a.op]
+                hit = True
+            elif da.equals(-d):
+                known &= {-x for x in self._SIGNS[a.op]}
+                hit = True
+        if not hit:
+            return None
+        q = self._SIGNS[op]
+        if known <= q:
+            return 1
+        if not (known & q):
+            return 0
+        return None
 
     def e_BinaryOperator(self, n):
         op = n['op']
@@ -1506,6 +1585,20 @@ class Interp:
             return self.compare(op, a, b, n)
         if op in ('.*', '->*'):
             raise Unsupported('pointer to member at %s' % self.loc(n))
+        if op in ('|', '&', '^') and (isinstance(a, Cond) or isinstance(b, Cond)):
+            # bit operations on the 0/1 results of comparisons: the non-short-circuit forms of ||, && and !=
+            ta, tb = self.truth(a, n), self.truth(b, n)
+            if op == '^':
+                if not isinstance(ta, Cond):
+                    return tb.negate() if ta else tb
+                if not isinstance(tb, Cond):
+                    return ta.negate() if tb else ta
+                return Cond('or', Cond('and', ta, tb.negate()), Cond('and', ta.negate(), tb))
+            if not isinstance(ta, Cond):
+                return (tb if ta else 0) if op == '&' else (1 if ta else tb)
+            if not isinstance(tb, Cond):
+                return (ta if tb else 0) if op == '&' else (1 if tb else ta)
+            return Cond('and' if op == '&' else 'or', ta, tb)
         return self.arith(op, a, b, n['t'], n)
 
     def e_CompoundAssignOperator(self, n):
@@ -1774,11 +1867,37 @@ class Interp:
                 if isinstance(arr, Region) and isinstance(arr.size, int) and (is_int_type(et) or is_float_type(et)):
                     for i in range(len(vals), arr.size):
                         arr.cell(i).value = self.zero_of(et)
+            elif init is not None and init['k'] == 'CXXConstructExpr':
+                # array of class type: one default construction per element
+                arr = cell.value
+                reg = arr.region if isinstance(arr, ArrayView) else arr
+                if not isinstance(reg.size, int):
+                    raise Unsupported('array of objects with symbolic extent at %s' % self.loc(d))
+                for i in range(reg.size):
+                    c = reg.cell(i)
+                    c.name = '%s[%d]' % (d.get('name'), i)
+                    self.construct_into(c, init)
+                    if isinstance(c.value, Obj):
+                        c.value.tag = c.name
+                    if not (d.get('staticLocal') or d.get('tls')):
+                        self.track(c, 'local')
+            elif init is None and (d.get('staticLocal') or d.get('tls')):
+                # static storage duration: zero-initialised before anything else happens
+                et = base_type(t)
+                while et.endswith(']'):
+                    et = et[:et.rindex('[')].strip()
+                arr = cell.value
+                reg = arr.region if isinstance(arr, ArrayView) else arr
+                if isinstance(reg, Region) and isinstance(reg.size, int) and (is_int_type(et) or is_float_type(et) or et.endswith('*')):
+                    for i in range(reg.size):
+                        reg.cell(i).value = self.zero_of(et)
             return
         if init is None:
             bt = base_type(t)
             if not (is_int_type(bt) or is_float_type(bt) or bt.endswith('*')):
                 cell.value = Obj(bt, None, d.get('name'))
+            elif d.get('staticLocal') or d.get('tls'):
+                cell.value = self.zero_of(bt)
             return
         if init['k'] in ('CXXConstructExpr', 'CXXTemporaryObjectExpr'):
             self.construct_into(cell, init)
@@ -1931,8 +2050,10 @@ class Interp:
             cells = [v.cell(k) for k in range(v.size)]
         elif isinstance(v, ArrayView):
             if len(v.dims) != 1:
-                raise Unsupported('range-for over a multi-dimensional array at %s' % self.loc(n))
-            cells = [v.region.cell(v.off + k) for k in range(v.dims[0])]
+                w = _prod(v.dims[1:])
+                cells = [Cell(ArrayView(v.region, v.off + k * w, list(v.dims[1:])), None, 0, 'row') for k in range(v.dims[0])]
+            else:
+                cells = [v.region.cell(v.off + k) for k in range(v.dims[0])]
         elif isinstance(v, Obj) and 'data' in v.fields and 'n' in v.fields:  # abstract std::vector
             reg, cnt = v.fields['data'].value, v.fields['n'].value
             if not isinstance(cnt, int):
